@@ -531,7 +531,12 @@ func (c *sseClientConn) Write(ctx context.Context, msg jsonrpc.Message) error {
 	defer resp.Body.Close()
 	if resp.StatusCode < 200 || resp.StatusCode >= 300 {
 		err := fmt.Errorf("failed to write: %s", resp.Status)
-		if req, ok := msg.(*jsonrpc.Request); ok && req.Method == methodDiscover {
+		if isTransientHTTPStatus(resp.StatusCode) {
+			// A transient server or gateway error (502, 503, 504, 429, 500)
+			// concerns this one message; it does not break the connection (as
+			// in the streamable client).
+			err = fmt.Errorf("%w: %w", err, jsonrpc2.ErrRejected)
+		} else if req, ok := msg.(*jsonrpc.Request); ok && req.Method == methodDiscover {
 			// A legacy server that has never heard of server/discover may
 			// refuse the POST outright (older servers validate the method
 			// first). That rejects this one message, it does not break the
